@@ -59,6 +59,7 @@ Inv_C20_ExactlyOneResponse ==
                /\ W.args.returned[k].err = W.args.fail
                /\ W.args.returned[k].hasPkg = ~W.args.fail
                /\ \A k2 \in DOMAIN W.args.returned : W.args.returned[k2].content = W.args.returned[k].content
+               /\ W.args.returned[k].ofImage                      \* ... of the image the caller asked for (ReqMgr!Inv_C20_RightContent)
          /\ W.args.entryCleared
     /\ IsEv("C20Stress") => (W.args.responses = W.args.expected /\ W.args.bad = 0)
 
